@@ -1,5 +1,7 @@
 package main
 
+import "golang.org/x/tools/go/ssa"
+
 func init() {
 	register("C08", &propInfo{
 		Explanation: "UNIT: every pruning comparison in the accelerated queries (bvh.go, collisions.go, sdf.go, coord_tree.go; 2D and 3D) compares like with like (squared distance with squared bound, length with length). CS: every hierarchy builder cuts its input into a prefix and a suffix at the same index (no object dropped or duplicated by the split), parallel sequences at the same index. AM: nearest-hit selection over parts keeps the smaller ray parameter. ALLCHILD: conversions of a bounding hierarchy visit every child of every node.",
@@ -8,7 +10,19 @@ func init() {
 		Run: func(c *Ctx) {
 			pkgs := c.unitPkgs("u")
 			ff := c.fileFilter("bvh.go", "collisions.go", "sdf.go", "coord_tree.go", "render3d/object.go")
-			c.runUnits("UNIT", pkgs, ff)
+			// the sampling collider is not an accelerated structure (watched by C07)
+			accel := func(fn *ssa.Function) bool {
+				if !ff(fn) {
+					return false
+				}
+				for f := fn; f != nil; f = f.Parent() {
+					if f.Signature.Recv() != nil && typeNameOf(f.Signature.Recv().Type()) == "SolidCollider" {
+						return false
+					}
+				}
+				return true
+			}
+			c.runUnits("UNIT", pkgs, accel)
 			c.floor("UNIT", 40)
 			c.runArgSwap("ARGSWAP", pkgs, baseIn("bvh.go", "collisions.go", "sdf.go", "coord_tree.go"), nil)
 			c.floor("ARGSWAP", 25)
